@@ -360,7 +360,7 @@ func ruleR13(c *Ctx, dv *dev, rule string) {
 			}
 			name := ""
 			if top != nil {
-				name = top.Name()
+				name = dv.refName(top)
 			}
 			key := fmt.Sprintf("write(Device.%s)@%s", fname, shortFn(s.Fn))
 			if reason, ok := trackerWriters[fname][name]; ok && top != nil && top.Pkg != nil && top.Pkg.Pkg.Path() == pkgDevice {
